@@ -62,6 +62,9 @@ def sample_value(rng: random.Random, dist_json: str) -> Any:
     return rng.uniform(a["low"], a["high"])
 
 
+EXTREME_FLOATS = [1e39, -2e39, 3.5e38, 1.7976931348623157e308, -1.7976931348623157e308, 5e-324, 1e-310]
+
+
 class OpGen:
     def __init__(
         self,
@@ -121,6 +124,9 @@ class OpGen:
 
     def objective_value(self) -> float:
         r = self.rng.random()
+        if r < 0.05:
+            # finite but beyond float32 / near the double limits (an exploding loss)
+            return self.rng.choice(EXTREME_FLOATS)
         if r < 0.12:
             return float("inf")
         if r < 0.24:
@@ -133,6 +139,8 @@ class OpGen:
         # non-finite values are frequent on purpose: overwriting one non-finite value by
         # another one (they share the NULL column in SQL) must be seen
         r = self.rng.random()
+        if r < 0.06:
+            return self.rng.choice(EXTREME_FLOATS)
         if r < 0.15:
             return float("nan")
         if r < 0.3:
